@@ -1,7 +1,419 @@
 package main
 
-// Replay of solver models against the real code (go test -overlay).
+// Replay of solver counterexamples against the real code.
+//
+// For a failed obligation whose function takes scalar / struct / slice inputs, the model's
+// input values are read back with (get-value ...), a Go test calling the REAL function with
+// those inputs is injected through `go test -overlay` (the repository is not touched), and the
+// observed outputs are asserted back into the obligation's script: if the script stays
+// satisfiable the real outputs violate the failed clause on those inputs (confirmed); a panic
+// observed for a safety obligation confirms it directly.
 
-func tryReplay(P *Prog, o *Obligation, inputs map[string]string, repo string) (bool, map[string]interface{}) {
-	return false, map[string]interface{}{"status": "not-replayed", "reason": "no replay generator for this function shape yet"}
+import (
+	"context"
+	"encoding/json"
+	"fmt"
+	"go/types"
+	"os"
+	"os/exec"
+	"path/filepath"
+	"strings"
+	"time"
+
+	"golang.org/x/tools/go/ssa"
+)
+
+type replayParam struct {
+	name  string
+	typ   types.Type
+	val   Val
+	terms map[string]string // query label -> SMT term
+}
+
+const replayMaxElems = 12
+
+// replayQueries builds the ground terms describing one input value. ok=false: not replayable.
+func (x *Exec) replayQueries(prefix string, v Val, t types.Type, q map[string]string, depth int) bool {
+	ss := x.P.ss
+	if depth > 3 {
+		return false
+	}
+	switch ss.kindOf(t) {
+	case KInt, KBool, KFloat:
+		q[prefix] = v.T
+		return true
+	case KStruct:
+		s := ss.structSort(t)
+		for i, f := range s.Fields {
+			fv := x.mkVal(sx(f.Name, v.T), f.Typ)
+			if !x.replayQueries(prefix+"."+s.Typ.Field(i).Name(), fv, f.Typ, q, depth+1) {
+				return false
+			}
+		}
+		return true
+	case KSlice:
+		if isString(t) {
+			return false
+		}
+		el := elemOfSliceType(t)
+		key, hel := x.sliceHeap(t)
+		x.entrySt.heap(key, ss.heapSort(hel, true))
+		q[prefix+".len"] = sLen(v.T)
+		q[prefix+".nil"] = sx("=", sArr(v.T), "0")
+		for i := 0; i < replayMaxElems; i++ {
+			cell := sx("select", sx("select", heapInit(key), sArr(v.T)), plus(sOff(v.T), fmt.Sprint(i)))
+			if !x.replayQueries(fmt.Sprintf("%s[%d]", prefix, i), x.mkVal(cell, el), el, q, depth+1) {
+				return false
+			}
+		}
+		return true
+	case KPtr:
+		pt := t.Underlying().(*types.Pointer)
+		if ss.kindOf(pt.Elem()) != KStruct && ss.kindOf(pt.Elem()) != KInt && ss.kindOf(pt.Elem()) != KFloat {
+			return false
+		}
+		if v.Ptr == nil || v.Ptr.Heap == "" {
+			return false
+		}
+		q[prefix+".nil"] = sx("=", v.Ptr.Root, "0")
+		x.entrySt.heap(v.Ptr.Heap, ss.heapSort(pt.Elem(), false))
+		cell := sx("select", heapInit(v.Ptr.Heap), v.Ptr.Root)
+		return x.replayQueries(prefix+".*", x.mkVal(cell, pt.Elem()), pt.Elem(), q, depth+1)
+	}
+	return false
+}
+
+// goLiteral renders a Go expression of type t from queried model values.
+func goLiteral(ss *Sorts, prefix string, t types.Type, vals map[string]string, qual types.Qualifier) (string, bool) {
+	ts := types.TypeString(t, qual)
+	switch ss.kindOf(t) {
+	case KInt:
+		v, ok := vals[prefix]
+		if !ok {
+			return "", false
+		}
+		return fmt.Sprintf("%s(%s)", ts, v), true
+	case KBool:
+		v, ok := vals[prefix]
+		return v, ok
+	case KFloat:
+		v, ok := vals[prefix]
+		if !ok {
+			return "", false
+		}
+		if w, _ := isFloat(t); w == 32 {
+			return fmt.Sprintf("%s(math.Float32frombits(%s))", ts, v), true
+		}
+		return fmt.Sprintf("%s(math.Float64frombits(%s))", ts, v), true
+	case KStruct:
+		st := t.Underlying().(*types.Struct)
+		var parts []string
+		for i := 0; i < st.NumFields(); i++ {
+			l, ok := goLiteral(ss, prefix+"."+st.Field(i).Name(), st.Field(i).Type(), vals, qual)
+			if !ok {
+				return "", false
+			}
+			parts = append(parts, st.Field(i).Name()+": "+l)
+		}
+		return ts + "{" + strings.Join(parts, ", ") + "}", true
+	case KSlice:
+		if vals[prefix+".nil"] == "true" {
+			return ts + "(nil)", true
+		}
+		var n int
+		if _, err := fmt.Sscan(vals[prefix+".len"], &n); err != nil || n > replayMaxElems || n < 0 {
+			return "", false
+		}
+		el := elemOfSliceType(t)
+		var parts []string
+		for i := 0; i < n; i++ {
+			l, ok := goLiteral(ss, fmt.Sprintf("%s[%d]", prefix, i), el, vals, qual)
+			if !ok {
+				return "", false
+			}
+			parts = append(parts, l)
+		}
+		return ts + "{" + strings.Join(parts, ", ") + "}", true
+	case KPtr:
+		if vals[prefix+".nil"] == "true" {
+			return "(" + ts + ")(nil)", true
+		}
+		pt := t.Underlying().(*types.Pointer)
+		l, ok := goLiteral(ss, prefix+".*", pt.Elem(), vals, qual)
+		if !ok {
+			return "", false
+		}
+		if ss.kindOf(pt.Elem()) == KStruct {
+			return "&" + l, true
+		}
+		return fmt.Sprintf("func() %s { v := %s; return &v }()", ts, l), true
+	}
+	return "", false
+}
+
+func smtValueToGo(v string) string {
+	v = strings.TrimSpace(v)
+	if strings.HasPrefix(v, "(- ") {
+		return "-" + strings.TrimSuffix(strings.TrimPrefix(v, "(- "), ")")
+	}
+	return v
+}
+
+// parseGetValue parses "((term value) (term value) ...)" in order.
+func parseGetValue(out string) []string {
+	i := strings.Index(out, "((")
+	if i < 0 {
+		return nil
+	}
+	t := parseSexp(out[i:])
+	if t == nil {
+		return nil
+	}
+	var vals []string
+	for _, k := range t.kids {
+		if len(k.kids) == 2 {
+			vals = append(vals, smtValueToGo(k.kids[1].String()))
+		}
+	}
+	return vals
+}
+
+// tryReplay attempts to confirm a failed obligation on the real code.
+func tryReplay(P *Prog, o *Obligation, _ map[string]string, repo string) (bool, map[string]interface{}) {
+	detail := map[string]interface{}{}
+	if o.replay == nil {
+		detail["status"] = "not-replayed"
+		detail["reason"] = "inputs of this function are not of a replayable shape (handles, files, interfaces) or the obligation is not at function level"
+		return false, detail
+	}
+	rp := o.replay
+	// 1. model values of the inputs
+	var labels, terms []string
+	for _, p := range rp.params {
+		for _, l := range sortedKeys(p.terms) {
+			labels = append(labels, l)
+			terms = append(terms, p.terms[l])
+		}
+	}
+	script := strings.Replace(o.script(P, false), "(check-sat)\n", "", 1)
+	decl := ""
+	for _, k := range rp.heapDecls {
+		f := strings.Fields(k)
+		if len(f) > 1 && !strings.Contains(script, "(declare-fun "+f[1]+" ") {
+			decl += k + "\n"
+		}
+	}
+	q := script + decl + "(check-sat)\n(get-value (" + strings.Join(terms, " ") + "))\n"
+	verdict, out, _ := runSolver(context.Background(), solvers[0], q, 15000)
+	if verdict != "sat" {
+		verdict, out, _ = runSolver(context.Background(), solvers[2], q, 15000)
+	}
+	if verdict != "sat" {
+		detail["status"] = "no-model"
+		detail["reason"] = "the solvers gave no model for this obligation (" + verdict + ")"
+		return false, detail
+	}
+	got := parseGetValue(out)
+	if len(got) != len(terms) {
+		detail["status"] = "no-model"
+		detail["reason"] = "could not read the model values back"
+		return false, detail
+	}
+	vals := map[string]string{}
+	for i, l := range labels {
+		vals[l] = got[i]
+	}
+	detail["inputs"] = vals
+	// 2. Go test calling the real function
+	fn := rp.fn
+	pkg := fn.Pkg.Pkg
+	qual := types.RelativeTo(pkg)
+	var args []string
+	for _, p := range rp.params {
+		l, ok := goLiteral(P.ss, p.name, p.typ, vals, qual)
+		if !ok {
+			detail["status"] = "not-replayed"
+			detail["reason"] = "model input " + p.name + " is too large or of an unsupported shape"
+			return false, detail
+		}
+		args = append(args, l)
+	}
+	call := ""
+	if fn.Signature.Recv() != nil {
+		call = "(" + args[0] + ")." + fn.Name() + "(" + strings.Join(args[1:], ", ") + ")"
+	} else {
+		call = fn.Name() + "(" + strings.Join(args, ", ") + ")"
+	}
+	res := fn.Signature.Results()
+	var lhs, prints []string
+	for i := 0; i < res.Len(); i++ {
+		lhs = append(lhs, fmt.Sprintf("r%d", i))
+		rt := res.At(i).Type()
+		switch P.ss.kindOf(rt) {
+		case KInt:
+			prints = append(prints, fmt.Sprintf(`fmt.Printf("GOWP-RESULT %d int %%d\n", int64(r%d))`, i, i))
+		case KBool:
+			prints = append(prints, fmt.Sprintf(`fmt.Printf("GOWP-RESULT %d bool %%v\n", r%d)`, i, i))
+		case KFloat:
+			if w, _ := isFloat(rt); w == 32 {
+				prints = append(prints, fmt.Sprintf(`fmt.Printf("GOWP-RESULT %d float %%d\n", math.Float32bits(float32(r%d)))`, i, i))
+			} else {
+				prints = append(prints, fmt.Sprintf(`fmt.Printf("GOWP-RESULT %d float %%d\n", math.Float64bits(float64(r%d)))`, i, i))
+			}
+		case KErr:
+			prints = append(prints, fmt.Sprintf(`fmt.Printf("GOWP-RESULT %d error %%v %%q\n", r%d == nil, fmt.Sprint(r%d))`, i, i, i))
+		case KSlice:
+			prints = append(prints, fmt.Sprintf(`fmt.Printf("GOWP-RESULT %d len %%d\n", len(r%d))`, i, i))
+		case KPtr:
+			prints = append(prints, fmt.Sprintf(`fmt.Printf("GOWP-RESULT %d ptr %%v\n", r%d == nil)`, i, i))
+		default:
+			prints = append(prints, fmt.Sprintf(`_ = r%d`, i))
+		}
+	}
+	assign := ""
+	if len(lhs) > 0 {
+		assign = strings.Join(lhs, ", ") + " := "
+	}
+	src := fmt.Sprintf(`package %s
+
+import (
+	"fmt"
+	"math"
+	"testing"
+)
+
+var _ = math.Float64frombits
+
+func TestGowpReplay(t *testing.T) {
+	defer func() {
+		if r := recover(); r != nil {
+			fmt.Printf("GOWP-PANIC %%v\n", r)
+		}
+	}()
+	%s%s
+	%s
+}
+`, pkg.Name(), assign, call, strings.Join(prints, "\n\t"))
+	detail["test_source"] = src
+	tmp, err := os.MkdirTemp("", "gowp-replay")
+	if err != nil {
+		detail["status"] = "error"
+		return false, detail
+	}
+	defer os.RemoveAll(tmp)
+	rel := strings.TrimPrefix(strings.TrimPrefix(pkg.Path(), repoPath), "/")
+	pkgDir := filepath.Join(repo, rel)
+	testFile := filepath.Join(tmp, "gowp_replay_test.go")
+	os.WriteFile(testFile, []byte(src), 0644)
+	ov, _ := json.Marshal(map[string]interface{}{"Replace": map[string]string{filepath.Join(pkgDir, "gowp_replay_test.go"): testFile}})
+	ovFile := filepath.Join(tmp, "overlay.json")
+	os.WriteFile(ovFile, ov, 0644)
+	ctx, cancel := context.WithTimeout(context.Background(), 120*time.Second)
+	defer cancel()
+	cmd := exec.CommandContext(ctx, "bash", "-c", fmt.Sprintf("ulimit -v 4000000; cd %q && go test -overlay %q -vet=off -count=1 -timeout 60s -run '^TestGowpReplay$' .", pkgDir, ovFile))
+	cmd.Env = append(os.Environ(), "GOFLAGS=-mod=mod", "GOPROXY=off", "GOSUMDB=off", "GOTOOLCHAIN=local")
+	outb, _ := cmd.CombinedOutput()
+	outs := string(outb)
+	detail["test_output"] = truncate(outs, 3000)
+	detail["test_cmd"] = "go test -overlay <ov.json> -vet=off -count=1 -timeout 60s -run '^TestGowpReplay$' . (in " + pkgDir + ")"
+	panicked := strings.Contains(outs, "GOWP-PANIC") || strings.Contains(outs, "panic:")
+	if strings.Contains(outs, "[build failed]") || strings.Contains(outs, "cannot use") {
+		detail["status"] = "replay-test-did-not-build"
+		return false, detail
+	}
+	if panicked {
+		detail["status"] = "real-code-panicked"
+		if strings.HasPrefix(o.Kind, "safety") || strings.HasPrefix(o.Kind, "pre") || o.Kind == "post" {
+			detail["confirmed_by"] = "the real function panics on the model's inputs"
+			return true, detail
+		}
+		return false, detail
+	}
+	if o.Kind != "post" {
+		detail["status"] = "real-code-did-not-panic"
+		return false, detail
+	}
+	// 3. assert inputs and observed outputs back into the script
+	var extra []string
+	for i, l := range labels {
+		extra = append(extra, fmt.Sprintf("(assert (= %s %s))", terms[i], lit(vals[l])))
+	}
+	observed := map[string]string{}
+	for _, ln := range strings.Split(outs, "\n") {
+		f := strings.Fields(ln)
+		if len(f) >= 4 && f[0] == "GOWP-RESULT" {
+			var idx int
+			fmt.Sscan(f[1], &idx)
+			if idx >= len(rp.rets) {
+				continue
+			}
+			rt := rp.rets[idx]
+			observed[f[1]] = strings.Join(f[2:], " ")
+			switch f[2] {
+			case "int", "float":
+				extra = append(extra, fmt.Sprintf("(assert (= %s %s))", rt.T, lit(f[3])))
+			case "bool":
+				extra = append(extra, fmt.Sprintf("(assert (= %s %s))", rt.T, f[3]))
+			case "error":
+				if f[3] == "true" {
+					extra = append(extra, fmt.Sprintf("(assert (= %s ErrNil))", rt.T))
+				} else {
+					extra = append(extra, fmt.Sprintf("(assert (not (= %s ErrNil)))", rt.T))
+				}
+			case "len":
+				extra = append(extra, fmt.Sprintf("(assert (= %s %s))", sLen(rt.T), f[3]))
+			case "ptr":
+				if rt.Ptr != nil {
+					if f[3] == "true" {
+						extra = append(extra, fmt.Sprintf("(assert (= %s 0))", rt.Ptr.Root))
+					} else {
+						extra = append(extra, fmt.Sprintf("(assert (not (= %s 0)))", rt.Ptr.Root))
+					}
+				}
+			}
+		}
+	}
+	detail["observed_outputs"] = observed
+	q2 := script + decl + strings.Join(extra, "\n") + "\n(check-sat)\n"
+	v2, _, _ := runSolver(context.Background(), solvers[0], q2, 15000)
+	if v2 == "unknown" {
+		v2, _, _ = runSolver(context.Background(), solvers[2], q2, 15000)
+	}
+	detail["oracle"] = "failed clause evaluated by the solver on the model inputs and the outputs observed from the real code: " + v2
+	if v2 == "sat" {
+		detail["status"] = "confirmed"
+		detail["confirmed_by"] = "the real function's outputs on the model's inputs violate the clause"
+		return true, detail
+	}
+	detail["status"] = "not-reproduced"
+	return false, detail
+}
+
+type replayInfo struct {
+	fn        *ssa.Function
+	params    []replayParam
+	rets      []Val
+	heapDecls []string
+}
+
+// prepareReplay records what is needed to replay obligations of the verified function.
+func (x *Exec) prepareReplay(st *State, fr *Frame) *replayInfo {
+	if x.fn.Parent() != nil || len(x.fn.FreeVars) > 0 {
+		return nil
+	}
+	x.entrySt = st
+	ri := &replayInfo{fn: x.fn}
+	for _, p := range x.fn.Params {
+		v := fr.vals[p]
+		q := map[string]string{}
+		if !x.replayQueries(p.Name(), v, p.Type(), q, 0) {
+			return nil
+		}
+		ri.params = append(ri.params, replayParam{name: p.Name(), typ: p.Type(), val: v, terms: q})
+	}
+	// initial heaps mentioned by the queries must be declared in the replay script
+	for key, sort := range st.hsort {
+		ri.heapDecls = append(ri.heapDecls, fmt.Sprintf("(declare-fun %s () %s)", heapInit(key), sort))
+	}
+	return ri
 }
